@@ -315,6 +315,10 @@ func (r *vC01Run) step(id int, step map[string]interface{}) vEvent {
 		case "AppendSet":
 			msgs := []*Message{}
 			base := r.l.NewestOffset() + 1
+			if rl := vList(step, "recs"); len(rl) > 0 {
+				// the offsets come with the data (a replica that joins late starts above 0)
+				base = vIntDef(rl[0], "off", base)
+			}
 			for i, sr := range vList(step, "recs") {
 				m, ar := vBuildMsg(sr)
 				ar.Off = base + int64(i)
@@ -443,6 +447,8 @@ func TestVerifCommitLog(t *testing.T) {
 	tw := vOpenTrace(t)
 	defer tw.Close()
 	for _, b := range sf.Behaviours {
+		// index pre-allocation in bytes (0 = the default 10 MiB): small values make index growth reachable
+		VerifIndexBytes = vIntDef(b.Cfg, "idx", 0)
 		run := &vC01Run{
 			t:       t,
 			dir:     vTempDir(t),
